@@ -212,6 +212,29 @@ impl Check for C19 {
                 }
             });
         }
+        // every (a, c <= a) pair, for each colour channel: un-premultiply must be floor(c*255/a)
+        run.bound("unpremultiply table", "all 32896 (alpha, colour <= alpha) pairs x 3 channel positions, as 256-pixel-wide surfaces through write_png".to_string());
+        run.par(3 * 16, |s, l| {
+            let ch = s / 16; // 0 = r, 1 = g, 2 = b
+            let band = (s % 16) as u32; // alphas band*16 .. band*16+15
+            let shift = [16u32, 8, 0][ch];
+            let mut px = Vec::new();
+            for a in band * 16..band * 16 + 16 {
+                for c in 0..256u32 {
+                    let cc = c.min(a);
+                    px.push((a << 24) | (cc << shift) | ((cc / 2) << [8u32, 0, 16][ch]));
+                }
+            }
+            l.states += 1;
+            l.transitions += 10;
+            l.traces += 1;
+            l.evals += 1;
+            l.nontrivial += 1;
+            match eval_surface(&root, 5000 + s, 256, 16, &px) {
+                Ok(hh) => l.outcome(hh),
+                Err(v) => run.report(5000 + s, v),
+            }
+        });
         // to_u32 packing
         let ch: Vec<u8> = (0..17).map(|i| (i * 16).min(255) as u8).collect();
         run.bound("to_u32", "17^4 channel tuples".to_string());
